@@ -928,6 +928,12 @@ func (c check) Run(w *harness.W, b harness.Batch) {
 		hc.Tree = genTree(r, hc.Cols, hc.Rows, i%3 == 2)
 		genOps(r, &hc, 40)
 		runHistory(w, hc, i == 0)
+		// a broken router makes every history wait for its timeouts: a few
+		// witnesses per batch are enough
+		if w.Violations() >= 3 {
+			w.Count("batches_cut_short_after_violations", 1)
+			break
+		}
 	}
 }
 
